@@ -49,7 +49,9 @@ def run_one(name, patch, checks, tier, cores):
         out = {}
         for c in checks:
             env = dict(os.environ, VERIF_REPO=str(scratch), VERIF_EVIDENCE_DIR=str(scratch / "evidence"),
-                       VERIF_OUT_DIR=str(scratch / "out"), VERIF_CORES=str(cores), PYTHONHASHSEED="0")
+                       VERIF_OUT_DIR=str(scratch / "out"), VERIF_CORES=str(cores), PYTHONHASHSEED="0",
+                       # several checks share the machine here: the wall-clock budget must not cut a run short
+                       VERIF_BUDGET_S=os.environ.get("VERIF_BUDGET_S", "1500"))
             t0 = time.time()
             p = subprocess.run([str(HERE / "check"), c, "--tier", tier], capture_output=True, text=True, env=env, cwd=str(HERE))
             sigs = [l.split("signature:")[1].strip() for l in p.stdout.splitlines() if "signature:" in l]
